@@ -17,7 +17,7 @@ SyncRun(k) ==
 
 GInit == Init /\ stepno = 0 /\ actj = ToJson(last)
 GNext == /\ stepno' = stepno + 1
-         /\ \/ \E u \in Users : SaveProfile(u) \/ DeleteProfile(u) \/ UpsertSigned(u) \/ DeleteSigned(u) \/ ExpireSigned(u)
+         /\ \/ \E u \in Users : SaveProfile(u) \/ ResaveProfile(u) \/ DeleteProfile(u) \/ UpsertSigned(u) \/ DeleteSigned(u) \/ ExpireSigned(u)
                                  \/ MutatingRequestDuringOutage(u)
             \/ \E k \in 0..MaxK : SyncRun(k)
             \/ Cleanup \/ OutageBegins \/ OutageEnds
